@@ -119,15 +119,25 @@ Proof.
     specialize (Hs Hin). cbn [fst snd] in Hs. unfold inst_ok in Hs. rewrite Hphi in Hs.
     rewrite forallb_forall in Hs.
     assert (Hpred : In b (preds f R b')) by (apply preds_spec; split; assumption).
-    specialize (Hs b Hpred). apply andb_true_iff in Hs. destruct Hs as [Hex Hall].
-    apply existsb_exists in Hex. destruct Hex as ([p v] & Hpv & Hpe). cbn [fst] in Hpe. apply N.eqb_eq in Hpe. subst p.
-    exists v. split; [exact Hpv|]. intros x ->.
-    rewrite forallb_forall in Hall. specialize (Hall (b, Some x) Hpv). cbn [fst snd] in Hall. rewrite N.eqb_refl in Hall.
-    unfold phi_val_ok in Hall. destruct (find_def (defs f) x) as [[b'' k'']|] eqn:Ef; [|discriminate].
-    apply find_def_in, defs_site in Ef. destruct Ef as (ins' & Hn' & Hxo). apply memN_spec in Hall.
-    destruct (dom_check_sound f R D Hd b l Hp b'' Hall) as [->|Hbl].
-    + eapply Hx; [|exact Hn'|exact Hxo]. assert ((k'' < length (nth_block f b))%nat) by (apply nth_error_Some; congruence). lia.
-    + eapply Hl; [exact Hbl | eapply nth_error_In; exact Hn' | exact Hxo].
+    specialize (Hs b Hpred).
+    destruct (existsb (fun pv => N.eqb (fst pv) b) (phi_pairs (i_args ins))) eqn:Hex.
+    + left. rename Hs into Hall.
+      apply existsb_exists in Hex. destruct Hex as ([p v] & Hpv & Hpe). cbn [fst] in Hpe. apply N.eqb_eq in Hpe. subst p.
+      exists v. split; [exact Hpv|]. intros x ->.
+      rewrite forallb_forall in Hall. specialize (Hall (b, Some x) Hpv). cbn [fst snd] in Hall. rewrite N.eqb_refl in Hall.
+      unfold phi_val_ok in Hall. destruct (find_def (defs f) x) as [[b'' k'']|] eqn:Ef; [|discriminate].
+      apply find_def_in, defs_site in Ef. destruct Ef as (ins' & Hn' & Hxo). apply memN_spec in Hall.
+      destruct (dom_check_sound f R D Hd b l Hp b'' Hall) as [->|Hbl].
+      * eapply Hx; [|exact Hn'|exact Hxo]. assert ((k'' < length (nth_block f b))%nat) by (apply nth_error_Some; congruence). lia.
+      * eapply Hl; [exact Hbl | eapply nth_error_In; exact Hn' | exact Hxo].
+    + right. split.
+      * intros v Hv. assert (Ht : existsb (fun pv => N.eqb (fst pv) b) (phi_pairs (i_args ins)) = true).
+        { apply existsb_exists. exists (b, v). split; [exact Hv | apply N.eqb_refl]. }
+        congruence.
+      * intros y Hy. apply memN_spec in Hs.
+        destruct (dom_check_sound f R D Hd b l Hp b' Hs) as [->|Hbl].
+        -- eapply Hx; [|exact Hj|exact Hy]. assert ((j < length (nth_block f b))%nat) by (apply nth_error_Some; congruence). lia.
+        -- eapply Hl; [exact Hbl | eapply nth_error_In; exact Hj | exact Hy].
 Qed.
 
 (* single definition: the definition table has no duplicate variable *)
